@@ -38,7 +38,7 @@ let run () =
          let k = kvs line in
          let actual = int_of_string (List.assoc "actual" k) and promised = int_of_string (List.assoc "promised" k) in
          if actual > promised then diverge (Printf.sprintf "the container asks for %d bytes per node, the constant promises %d" actual promised) line
-       | kind :: op :: i :: j :: "=" :: res :: _ when List.mem kind ["list"; "forward_list"; "set"; "unordered_set"; "map"; "vector"; "deque"; "s_list"; "s_vector"] ->
+       | kind :: op :: i :: j :: "=" :: res :: _ when List.mem kind ["list"; "forward_list"; "set"; "unordered_set"; "map"; "vector"; "deque"; "s_list"; "s_vector"; "p_list"; "a_list"; "a_vector"] ->
          incr ops;
          let w = (match Hashtbl.find_opt worlds kind with Some w -> w | None -> fresh_world ()) in
          let i = nat_of_int (int_of_string i) and j = nat_of_int (int_of_string j) in
